@@ -86,3 +86,38 @@ def ili_case(before, lines, after, outcome):
     inp = [project_db(before), [[f for f in ln] for ln in lines]]
     exp = [1, project_db(after)] if outcome == 'ok' else ([-1] if outcome == 'WnError' else [-5])
     return inp, exp
+
+
+def trace_pairs(ops, rec):
+    """ops: the operations given to run_trace.py; rec: its record.  Returns {fn: [(input, expected)]}"""
+    out = {'run_add': [], 'run_remove': [], 'run_add_ili': []}
+    before = rec['initial']
+    for op, st in zip(ops, rec['steps']):
+        if op[0] == 'add':
+            out['run_add'].append(add_case(before, op[1], st['after'], st['outcome']))
+        elif op[0] == 'remove':
+            out['run_remove'].append(remove_case(before, op[1], st['after'], st['outcome']))
+        elif op[0] == 'ili':
+            lines = [ln.split('\t') for ln in op[1].splitlines()]
+            out['run_add_ili'].append(ili_case(before, lines, st['after'], st['outcome']))
+        before = st['after']
+    return out
+
+
+def run_correspondence(rep, common, pairs_by_fn, tag):
+    """evaluates Model/Add.v on real before/after traces; reports mismatches as a broken correspondence"""
+    total = 0
+    for fn, pairs in pairs_by_fn.items():
+        if not pairs:
+            continue
+        mism, info = common.coq_mismatches('WnV.Model.Add', fn, 'sx_agree_default', pairs, tag=tag + fn, shard=12,
+                                           want_model_out=False)
+        total += len(pairs)
+        if info['errors']:
+            rep.broke('correspondence evaluation failed in Coq (%s): %s' % (fn, '; '.join(info['errors'])[:1200]))
+        if mism:
+            rep.broke('correspondence Model/Add.v %s vs the real tables: %d of %d steps differ (first differing step input '
+                      'starts: %s)' % (fn, len(mism), len(pairs), str(pairs[mism[0]][0][1])[:600]))
+        rep.coverage['traces_validated_against_impl_' + fn] = len(pairs)
+        rep.coverage['correspondence_mismatches_' + fn] = len(mism)
+    return total
